@@ -62,3 +62,15 @@ MUTANTS += [
     ("c18_least_significant_digit", "C18", "io.py", '        "concentration": {"zlib": True, "complevel": 4},\n', '        "concentration": {"zlib": True, "complevel": 4, "least_significant_digit": 12},\n'),
     ("c18_y_from_x", "C18", "io.py", "        y = Y[:, 0] if Y.ndim == 2 else Y\n", "        y = X[:, 0] if Y.ndim == 2 else Y\n"),
 ]
+
+MUTANTS += [
+    # ---- C02
+    ("c02_shift_halo_regression", "C02", "solver.py", "shift = np.exp(1j * (Lx * (xm + px * dx) + Ly * (ym + py * dy)))", "shift = np.exp(1j * (Lx * (xm + halo) + Ly * (ym + halo)))"),
+    ("c02_shift_sign", "C02", "solver.py", "shift = np.exp(1j * (Lx * (xm + px * dx) + Ly * (ym + py * dy)))", "shift = np.exp(-1j * (Lx * (xm + px * dx) + Ly * (ym + py * dy)))"),
+    ("c02_xm_ym_swapped", "C02", "solver.py", "shift = np.exp(1j * (Lx * (xm + px * dx) + Ly * (ym + py * dy)))", "shift = np.exp(1j * (Lx * (ym + px * dx) + Ly * (xm + py * dy)))"),
+    ("c02_ifft_in_footprint", "C02", "solver.py", '        p = fft2(fftp, norm="backward").real  # concentration\n        q = fft2(fftq, norm="backward").real  # kinematic flux\n', '        p = ifft2(fftp, norm="forward").real  # concentration\n        q = ifft2(fftq, norm="forward").real  # kinematic flux\n'),
+    ("c02_crop_offset", "C02", "solver.py", "    flx = q[:, py : nye - py, px : nxe - px]\n", "    flx = np.roll(q, 1, axis=2)[:, py : nye - py, px : nxe - px]\n"),
+    ("c02_ly_with_dx", "C02", "solver.py", "    ly = 2.0 * np.pi / dy / nye * ily\n", "    ly = 2.0 * np.pi / dx / nye * ily\n"),
+    ("c02_pad_px_dy", "C02", "solver.py", "shift = np.exp(1j * (Lx * (xm + px * dx) + Ly * (ym + py * dy)))", "shift = np.exp(1j * (Lx * (xm + px * dx) + Ly * (ym + py * dx)))"),
+    ("c02_delta_norm", "C02", "solver.py", "tfftq0 = np.ones((nly, nlx), dtype=np.complex128) / nxe / nye", "tfftq0 = np.ones((nly, nlx), dtype=np.complex128) / nx / ny"),
+]
